@@ -425,23 +425,23 @@ def cases(tier, rng):
     for nproc in ([2] if not thorough else [2, 4]):
         yield "coarsen", {"bins": gen.layout_bins([4, 2]), "pixels": pool_px, "symm": True, "ks": [2, 3],
                           "chunksizes": [1, 2, 5], "nprocs": [nproc], "style": "pool"}
-    for _ in range(170 if thorough else 60):
+    for _ in range(420 if thorough else 60):
         c = _limit(rng, _cooler(rng, nmax), thorough)
         if thorough and rng.random() < 0.2:
             c["nprocs"] = [1, rng.choice([2, 4])]
             c["chunksizes"] = sorted({1, 2, rng.randint(1, len(c["pixels"]) + 1)})
         yield "coarsen", c
-    for _ in range(40 if thorough else 12):
+    for _ in range(90 if thorough else 12):
         c = _limit(rng, _cooler(rng, nmax), thorough)
         c.pop("style")
         yield "coarsener", c
     # chains: k1 then k2 == k1*k2 (fixed-width tables; variable ones as well, each step is L0 anyway)
-    for _ in range(70 if thorough else 20):
+    for _ in range(160 if thorough else 20):
         c = _cooler(rng, nmax + 3, rng.choice(["fixed", "fixed", "short", "unit", "var"]))
         c.update(k1=rng.randint(2, 4), k2=rng.randint(2, 4), cs1=rng.randint(1, 6), cs2=rng.randint(1, 6))
         yield "chain", c
     # merge / coarsen interleavings
-    for _ in range(44 if thorough else 14):
+    for _ in range(110 if thorough else 14):
         bins, style = _table(rng, nmax)
         n = len(bins)
         symm = rng.random() < 0.7
